@@ -88,7 +88,7 @@ var corpus = [][]string{
 	// once when it runs, or as soon as it is started); afterwards everything is refused
 	{"mode seq", "obs on", "bw 1 5 k", "bw 2 0 c", "bw 3 5 a@-3", "bw 4 9 c", "start", "workers", "ctxflag", "fin 1", "seenlog", "ctxflag", "workers", "isrunning",
 		"bw 5 0 c", "start", "sdw", "seenlog"},
-	{"mode seq", "bw 1 -3 k", "bw 2 0 c", "fin 1", "workers", "isstopped", "start", "seenlog", "ctxflag", "isrunning", "bw 2 0 c", "sdw"},
+	{"mode seq", "bw 1 -3 k", "bw 2 0 c", "fin 1", "workers", "isstopped", "start", "workers", "fin 1", "seenlog", "ctxflag", "isrunning", "bw 2 0 c", "sdw"},
 	{"mode seq", "bw 1 2 a@2", "start", "bw 2 2 a@-9223372036854775808", "bw 3 9223372036854775807 a@9223372036854775807", "workers", "fin 21", "fin 2",
 		"bw 2 0 a@5", "workers", "ctxflag", "sdw", "seenlog", "ctxflag", "ctxstopped"},
 	// equal-order workers that hold until their peers are cancelled; a gated top group
